@@ -338,7 +338,7 @@ Definition do_seg (isb : bool) (text : list chr) (attrs : rle) (ls : lstate) (s 
       | Err x => Err x
       | Ok (la, aw) => Ok (LS la (l_bytes ls + ilen) (l_cols ls + iw) aw)
       end
-    else if negb (s_offs =? 0) then                                 (* elif s.offs: *)
+    else if match s with SPad _ None => false | _ => true end then   (* elif s.offs is not None: *)
       if negb (sc =? 0) then                                        (*   if s.sc: *)
         match attrrange isb text attrs (l_aw ls) (l_attr ls) s_offs s_offs sc with
         | Err x => Err x
